@@ -68,3 +68,9 @@ pub open spec fn te_result(vs: Seq<AsciiString>, r: Result<(bool, bool), HttpErr
         match codings_of(items) { Some(c) => r == Ok::<(bool, bool), HttpError>(c), None => r is Err && r->Err_0 is UnsupportedTransferEncoding }
     }
 }
+pub open spec fn lit_expect() -> Seq<char> { asref_spec::<&str, str>(&"expect")@ }
+// Option::map_or (assumed, from its definition): the default for None, f applied to the value for Some
+pub assume_specification<T, U, F> [std::option::Option::<T>::map_or] (o: std::option::Option<T>, d: U, f: F) -> (r: U)
+    where F: std::ops::FnOnce(T,) -> U + core::marker::Destruct, U: core::marker::Destruct,
+    requires o matches Some(v) ==> f.requires((v,)),
+    ensures match o { Some(v) => f.ensures((v,), r), None => r == d };
